@@ -23,6 +23,7 @@ Qed.
 (* ------------------------------------------------------------------ ParseAccept *)
 Definition nonneg (a : aspec) : Prop := flt (sq a) pzero = false.
 Local Arguments strip_prefix : simpl never.
+Local Arguments Z.add : simpl never.
 Local Arguments skip_space : simpl never.
 Local Arguments expect_quality : simpl never.
 Local Arguments expect_token_slash : simpl never.
